@@ -154,7 +154,7 @@ class FSA:
         in_dict = defaultdict(dict)
         for v, neighbors_out in self._out_dict.items():
             for w, labels in neighbors_out.items():
-                in_dict[w][v] = labels
+                in_dict[w][v] = list(labels)
         self._in_dict = in_dict
 
     def __str__(self):
